@@ -440,11 +440,12 @@ class Gen:
         natt, eatt = dict(self.natt), dict(self.eatt)
         gone_nodes = {w: set(self.missing[w]) for w in self.warps}
         children = {p[2] for p in self.parent.values() if p}
+        alive = list(self.warps)
         def is_portal(v):
             return v is not None and v[0] == "d"
         for _ in range(k):
             good = allgood or rng.random() < 0.5
-            w = rng.choice(self.warps) if good else rng.choice(self.warps + [rid(rng)])
+            w = rng.choice(alive) if good else rng.choice(self.warps + [rid(rng)])
             ns = self.nodes.get(w) or [rid(rng)]
             real = [n for n in ns if n not in gone_nodes.get(w, set())] or ns
             es = live_edges.get(w) or []
@@ -536,7 +537,7 @@ class Gen:
                     out.append(("OP", key, cw, rid(rng) if cw not in self.roots else self.roots[cw],
                                 rng.choice(self.types) if rng.random() < 0.7 else None))
             elif c < 0.96:
-                leaves = [cw for cw in self.warps[1:] if cw not in children and self.parent.get(cw)]
+                leaves = [cw for cw in alive[1:] if cw not in children and self.parent.get(cw)]
                 if good and leaves:
                     cw = rng.choice(leaves)
                     p = self.parent[cw]
@@ -544,8 +545,8 @@ class Gen:
                     if p[0] in (1, 2) and p[0] == p[1] and slotmap.get((p[2], p[3])) == ("d", cw):
                         out += [("SA", p, None), ("DI", cw)]
                         slotmap.pop((p[2], p[3]), None)
-                        self_w = cw
-                        live_edges.pop(self_w, None)
+                        alive.remove(cw)
+                        live_edges.pop(cw, None)
                     else:
                         out.append(("UN", w, rng.choice(ns), rng.choice(self.types)))
                 elif good:
